@@ -359,6 +359,13 @@ func (r *deserContext) decodeBinary() Item {
 			if r.Err != nil {
 				break
 			}
+			if key == nil {
+				r.Err = fmt.Errorf("%w: invalid map key", ErrInvalidType)
+				break
+			}
+			if r.Err = IsValidMapKey(key); r.Err != nil {
+				break
+			}
 			m.Add(key, value)
 		}
 		return m
